@@ -30,6 +30,7 @@ import (
 	"github.com/vipnode/vipnode/v2/pool/store"
 	badgerStore "github.com/vipnode/vipnode/v2/pool/store/badger"
 	memoryStore "github.com/vipnode/vipnode/v2/pool/store/memory"
+	"github.com/vipnode/vipnode/v2/simhook"
 	"golang.org/x/crypto/acme/autocert"
 )
 
@@ -279,6 +280,9 @@ func runPool(options Options) error {
 		return err
 	}
 	logger.Infof("Starting pool (version %s), listening on: %s", Version, options.Pool.Bind)
+	if taken, err := simhook.Serve(handler, p, storeDriver, options.Pool.Bind); taken {
+		return err
+	}
 	return http.ListenAndServe(options.Pool.Bind, handler)
 }
 
